@@ -47,6 +47,8 @@ def branch():
     return st.one_of(
         st.sampled_from(TYPES).map(lambda t: {"type": t}),
         st.just({}),
+        st.just(False),
+        st.just(True),
         st.just({"minimum": 1}),
         st.just({"type": "object", "title": "Branch", "properties": {"q": {"type": "string"}}}),
     )
@@ -76,7 +78,7 @@ def core(draw):
                 seen_obj = False
                 out = []
                 for b in bs:
-                    if b.get("type") == "object":
+                    if isinstance(b, dict) and b.get("type") == "object":
                         if seen_obj:
                             continue
                         seen_obj = True
